@@ -70,6 +70,7 @@ class Obligation:
         self.backend = None
         self.model = None
         self.detail = ""
+        self.result_prev = None
 
 
 class Env:
@@ -193,6 +194,11 @@ class Engine:
         stack = [[]]
         npaths = 0
         seen = set()
+        # deterministic names: all fresh-name counters restart for every function
+        import pyvc.sorts as _so
+        _so._cnt[0] = 0
+        ops._qcnt[0] = 0
+        Path._hc[0] = 0
         while stack:
             prefix = stack.pop()
             npaths += 1
@@ -457,6 +463,13 @@ class Path:
             except TypeError as e:
                 raise Unsupported("%s returns %r, contract declares %r" % (q, result.s, fc.returns))
         self.env.result = result
+        if result is not None and result.lazy is not None:
+            missing = result.lazy - self.declared_reads()
+            self.oblige("%s/iterator-stability:returned-iterator-reads-only-declared-state" % q, z3.BoolVal(not missing),
+                        "iterator-stability", line)
+            if missing and self.emitting():
+                self.syntactic_refutation("the returned iterator lazily reads %s; the contract promises %s" % (
+                    sorted(missing), sorted(self.declared_reads()) or "a snapshot"))
         if self.emitting():
             self.obligations.append(Obligation("%s/vacuity:normal-exit-reachable" % q, list(self.pc), None, "vacuity-exit", line, self.pid))
         for stmt in fc.ghost_exit_l:
@@ -642,7 +655,9 @@ class Path:
 
     def exc_name(self, e):
         if e is None:
-            raise Unsupported("bare raise")
+            if getattr(self, "handling", None):
+                return self.handling[-1]
+            raise Unsupported("bare raise outside a handler")
         if isinstance(e, ast.Call):
             e = e.func
         if isinstance(e, ast.Name):
@@ -674,7 +689,11 @@ class Path:
                     raise
                 if h.name:
                     self.env.locals[h.name] = V(NoneU, ANY)
-                self.exec_block(h.body)
+                self.handling = getattr(self, "handling", []) + [e.name]
+                try:
+                    self.exec_block(h.body)
+                finally:
+                    self.handling = self.handling[:-1]
                 return
             self.exec_block(s.orelse)
 
@@ -737,6 +756,12 @@ class Path:
                 self.assume(*ax)
                 self.assign(t.value, nv)
                 return
+            if isinstance(base.s, RefS):
+                fc = self.eng.find_contract(base.s.cls, "__delitem__")
+                if fc is None:
+                    raise Unsupported("del x[k] on %s without a __delitem__ contract" % base.s.cls)
+                self.call_contract(fc, base, [self.ev(t.slice, self.env)], {}, t.lineno, "__delitem__")
+                return
         raise Unsupported("del of %s" % ast.dump(t)[:60])
 
     # ------------------------------------------------------------------ assignment
@@ -772,6 +797,12 @@ class Path:
                 ie = ite(i.t < 0, i.t + n, i.t)
                 self.guard(z3.And(0 <= ie, ie < n), "IndexError", tgt.lineno)
                 self.assign(tgt.value, ops.seq_store(base, ie, ops.coerce(v, base.s.elem)))
+                return
+            if isinstance(base.s, RefS):
+                fc = self.eng.find_contract(base.s.cls, "__setitem__")
+                if fc is None:
+                    raise Unsupported("x[k] = v on %s without a __setitem__ contract" % base.s.cls)
+                self.call_contract(fc, base, [self.ev(tgt.slice, env), v], {}, tgt.lineno, "__setitem__")
                 return
             raise Unsupported("subscript store on sort %r" % base.s)
         if isinstance(tgt, (ast.Tuple, ast.List)):
@@ -868,7 +899,7 @@ class Path:
                 self.wf(v)
                 env.locals[nme] = v
         # heap: fields assigned in the body (whole field, or one cell when the receiver is `self`)
-        for fnode in fields:
+        for fnode in sorted(fields, key=lambda f: (getattr(f, "lineno", 0), getattr(f, "col_offset", 0), f.attr)):
             recv = fnode.value
             try:
                 rv = self.ev(recv, env.spec_view())
@@ -922,7 +953,8 @@ class Path:
             self.wf(env.yielded)
         # allocation may grow inside the loop
         if any(True for _ in calls):
-            a2 = z3.Const("alloc!%d" % id(loopnode) + str(len(self.pc)), z3.ArraySort(z3.IntSort(), z3.BoolSort()))
+            Path._hc[0] += 1
+            a2 = z3.Const("alloc!l%d" % Path._hc[0], z3.ArraySort(z3.IntSort(), z3.BoolSort()))
             o = z3.Int("o!al")
             self.assume(z3.ForAll([o], z3.Implies(z3.Select(env.alloc, o), z3.Select(a2, o))))
             env.alloc = a2
@@ -958,9 +990,6 @@ class Path:
 
     def havoc_field(self, key):
         sort = self.eng.all_heap_keys()[key]
-        self.env.heap[key] = fresh("H_%s_%s" % key, None) if False else z3.Const(
-            "H_%s_%s!%d" % (key[0], key[1], len(self.pc) * 1000 + len(self.obligations) + id(key) % 997),
-            z3.ArraySort(z3.IntSort(), z(sort)))
         self._uniq_heap(key)
 
     _hc = [0]
@@ -1114,6 +1143,7 @@ class Path:
     def exec_for(self, s):
         k, lc = self.loop_contract(s)
         seq = self.iter_seq(s.iter, self.env, s.lineno)
+        self.check_stability(seq, s.body, s.lineno, "for")
         iname, sname = "_i%d" % k, "_seq%d" % k
         self.env.locals[sname] = seq
         self.env.locals[iname] = V(z3.IntVal(0), INT)
@@ -1139,6 +1169,64 @@ class Path:
         except BreakSig:
             return
         self.end_iteration(lc, k, s, None)
+
+    # ------------------------------------------------------------------ lazy iterators (iterator stability, DESIGN §2.4)
+    def keys_of_names(self, names):
+        out = set()
+        for nm in names:
+            cn, _, f = nm.partition(".")
+            d = self.eng.field_decl(cn, f) if cn in self.unit.classes else None
+            if d is None:
+                raise StaleContract("reads: unknown field %s" % nm)
+            out.add((d[0], f))
+        return out
+
+    def keys_by_attr(self, attr):
+        out = set()
+        for cn in self.unit.classes:
+            d = self.eng.field_decl(cn, attr)
+            if d is not None:
+                out.add((d[0], attr))
+        return out
+
+    def body_write_keys(self, stmts):
+        """heap keys a block may write: its own attribute stores and the frames of everything it calls (coarse, by field name)"""
+        names, fields, calls = self.written_in(stmts)
+        keys = set()
+        for f in fields:
+            keys |= self.keys_by_attr(f.attr)
+        for c in calls:
+            for cfc in self.callees_of(c):
+                for loc in cfc.modifies_l:
+                    l2 = loc.strip()
+                    l2 = l2[:-3] if l2.endswith("[*]") else l2
+                    keys |= self.keys_by_attr(l2.rsplit(".", 1)[-1])
+        return keys
+
+    def declared_reads(self):
+        return self.keys_of_names(self.fc.reads_lazily)
+
+    def syntactic_refutation(self, why):
+        """frame conditions on field names are decided syntactically (sound, coarse): no solver involved"""
+        ob = self.obligations[-1]
+        ob.result, ob.backend, ob.detail, ob.model = "refuted", "syntactic-frame-check", why, {"reason": why}
+
+    def check_stability(self, seqv, body, line, what):
+        if not seqv.lazy:
+            return
+        has_yield = any(isinstance(n, (ast.Yield, ast.YieldFrom)) for st in body for n in ast.walk(st))
+        clash = seqv.lazy & self.body_write_keys(body)
+        self.oblige("%s/iterator-stability@L%d:%s" % (self.fc.qualname, line, what),
+                    z3.BoolVal(not clash), "iterator-stability", line)
+        if clash and self.emitting():
+            self.syntactic_refutation("the loop body may write %s, which the iterator being consumed still reads" % sorted(clash))
+        if has_yield:
+            # between two yields the consumer of THIS generator may run: the iterator's reads become this generator's reads
+            missing = seqv.lazy - self.declared_reads()
+            self.oblige("%s/iterator-stability@L%d:lazy-reads-declared" % (self.fc.qualname, line), z3.BoolVal(not missing),
+                        "iterator-stability", line)
+            if missing and self.emitting():
+                self.syntactic_refutation("this generator lazily reads %s, which its contract does not declare" % sorted(missing))
 
     # ------------------------------------------------------------------ iteration sources
     def iter_seq(self, node, env, line=0):
@@ -1175,8 +1263,16 @@ class Path:
                 self.assume(seq_len(r) == ln,
                             z3.ForAll([j], seq_get(r, j) == tup_mk(so.elem, *[seq_get(x.t, j) for x in ins]), patterns=[seq_get(r, j)]))
                 return V(r, so)
-            if fn == "iter" or fn == "list" or fn == "tuple":
-                return self.iter_seq(node.args[0], env, line)
+            if fn == "iter":
+                inner = self.iter_seq(node.args[0], env, line)
+                a0 = node.args[0]
+                if inner.lazy is None and isinstance(a0, ast.Attribute) and isinstance(inner.s, SeqS):
+                    # iterator over a list stored in a field: it keeps reading that field
+                    return V(inner.t, inner.s, self.keys_by_attr(a0.attr))
+                return inner
+            if fn == "list" or fn == "tuple":
+                inner = self.iter_seq(node.args[0], env, line)
+                return V(inner.t, inner.s)
             if fn == "reversed":
                 inner = self.iter_seq(node.args[0], env, line)
                 v, ax = ops.seq_reverse(inner)
@@ -1184,6 +1280,8 @@ class Path:
                 return v
         v = self.ev(node, env)
         return self.as_iter_seq(v, line)
+
+    _last_iter_lazy = None
 
     def as_iter_seq(self, v, line=0):
         if isinstance(v.s, SeqS):
@@ -1658,7 +1756,17 @@ class Path:
         return self.comprehension(n, env)
 
     def ev_GeneratorExp(self, n, env):
-        return self.comprehension(n, env)
+        v = self.comprehension(n, env)
+        # a generator expression is lazy: it keeps reading whatever its iterable reads, plus the fields its element reads
+        g = n.generators[0]
+        lazy = set(self._last_iter_lazy or ())
+        for m in ast.walk(g.iter):
+            if isinstance(m, ast.Attribute):
+                lazy |= self.keys_by_attr(m.attr)
+        for m in ast.walk(n.elt):
+            if isinstance(m, ast.Attribute):
+                lazy |= self.keys_by_attr(m.attr)
+        return V(v.t, v.s, lazy)
 
     def comprehension(self, n, env, elt_sort=None):
         """[elt for x in S] / (elt for x in S) without filter: elementwise map.  The element expression is evaluated with the
@@ -1667,6 +1775,7 @@ class Path:
             raise Unsupported("nested comprehension")
         g = n.generators[0]
         S = self.iter_seq(g.iter, env, getattr(n, "lineno", 0))
+        self._last_iter_lazy = S.lazy
         j = ops.qvar("jc")
         sub = Env(dict(env.locals), env.heap, env.alloc, True, env.old, env.result, env.yielded, dict(env.binders))
         saved = self.env
